@@ -12,10 +12,10 @@ CanSpell(sp, cp) ==
     [] sp = "hex" -> TRUE
     [] sp = "dquoted" -> cp >= 32 /\ cp \notin {34, 92, 127}
     [] sp = "squoted" -> cp >= 32 /\ cp \notin {39, 92, 127}
-    [] sp = "escaped" -> cp \in {9, 10, 13, 0, 92, 127, 228, 8364}
+    [] sp = "escaped" -> cp \in {9, 10, 13, 0, 92, 127, 201, 228, 8364}
     [] sp = "symbolic" -> cp \in 9..13
 Spellings == {"literal", "dec", "hex", "dquoted", "squoted", "escaped", "symbolic"}
-Pool == {0, 9, 10, 13, 32, 34, 39, 44, 48, 59, 92, 124, 127, 228, 8364}
+Pool == {0, 9, 10, 13, 32, 34, 39, 44, 48, 59, 88, 92, 124, 127, 201, 228, 8364}
 DelimiterValues == {Ch(sp, cp) : sp \in Spellings, cp \in Pool} \cup {Bad(k) : k \in {"empty", "twochars", "unknownname", "float", "unterminated"}}
 S(p, v) == [prop |-> p, v |-> v]
 ItemSettings == {S("item_delimiter", v) : v \in {w \in DelimiterValues : w.kind # "char" \/ CanSpell(w.sp, w.cp)}}
@@ -31,7 +31,7 @@ NameSettings ==
   \cup {S("sheet", In(n)) : n \in {1, 2, 0, -1}} \cup {S("sheet", Bad("junk"))}
   \cup {S("quoting", Nm(n)) : n \in {"all", "minimal", "some"}}
   \cup {S("skip_initial_space", Nm(n)) : n \in {"true", "false", "maybe"}}
-  \cup {S("allowed_characters", Nm(n)) : n \in {"range", "malformed"}}
+  \cup {S("allowed_characters", Nm(n)) : n \in {"range", "letters", "malformed"}}
   \cup {S("no_such_property", Nm("x"))}
 AllSettings == ItemSettings \cup CharSettings \cup NameSettings
 \* pairs: the settings that can contradict each other
